@@ -27,6 +27,8 @@ func init() {
 		NotDecided: "Semantic equivalence with the FRR-mode output (needs an interpretation of both); behaviour of frr-k8s itself.",
 		Run:        runC15,
 		Mutants: []Mutant{
+			{Name: "duplicate-registration-refused-quietly", File: "internal/bgp/frrk8s/frrk8s.go",
+				Old: "\tsessionName := sessionName(*s)\n\tsm.sessions[sessionName] = s\n", New: "\tsessionName := sessionName(*s)\n\tif _, dup := sm.sessions[sessionName]; dup {\n\t\treturn fmt.Errorf(\"duplicate session %s\", sessionName)\n\t}\n\tsm.sessions[sessionName] = s\n", Expect: "REGISTERED"},
 			{Name: "routers-keyed-by-source-address", File: "internal/bgp/frrk8s/frrk8s.go",
 				Old: "\t\trouterName := frr.RouterName(s.RouterID.String(), s.MyASN, s.VRFName)", New: "\t\trouterName := frr.RouterName(s.SourceAddress.String(), s.MyASN, s.VRFName)", Expect: "ROUTER-KEY"},
 			{Name: "hand-over-outside-the-manager-lock", File: "internal/bgp/frrk8s/frrk8s.go",
@@ -67,6 +69,7 @@ func init() {
 }
 
 func runC15(p *chk.Prog, r *chk.Report) {
+	registeredRule(p, r, fk8Pkg)
 	routerKeyRule(p, r, fk8Pkg, "updateConfig")
 	sessionKeyRule(p, r, fk8Pkg)
 	scratchRule(p, r, "internal/bgp/frrk8s")
@@ -233,6 +236,18 @@ func c15DedupSort(p *chk.Prog, r *chk.Report) {
 		return false
 	}
 	okAllowed := !loopSkipsWithout(g, advLoop, appAllowed, chk.NoGuard) && !loopHasBreak(g, advLoop)
+	// a prefix passed over only because it is in the list already: a set seeded with the neighbour's allowed prefixes,
+	// asked before the append and told right with it - the list is then free of duplicates by construction
+	seenSet := definedBy(g, "sets.New(N.ToAdvertise.Allowed.Prefixes...)")
+	dedupByConstruction := false
+	if !okAllowed && !loopHasBreak(g, advLoop) {
+		already := g.GPat(true, "SEEN.Has(P)", chk.H("SEEN", seenSet), chk.H("P", pfx))
+		apps := g.Find(func(n ast.Node) bool { return chk.InBody(advLoop, n) && appAllowed(n) })
+		ins := f.ContainsPat("SEEN.Insert(P)", chk.H("SEEN", seenSet), chk.H("P", pfx))
+		if len(apps) == 1 && !loopSkipsWithout(g, advLoop, appAllowed, already) && g.Dominated(apps[0], chk.GNot(already)) && !loopSkipsWithout(g, advLoop, ins, already) {
+			okAllowed, dedupByConstruction = true, true
+		}
+	}
 	okOrig := !loopSkipsWithout(g, advLoop, routerPfx, chk.NoGuard)
 	// the prefixes collected into a list first (one per advertisement, by a helper), then handed on as a whole
 	isAdvs := func(e ast.Expr) bool { return f.MatchWith("S.advertised", e, chk.H("S", sess)) != nil }
@@ -294,6 +309,14 @@ func c15DedupSort(p *chk.Prog, r *chk.Report) {
 			}
 		}
 		okDedup := !w1.Found && !w2.Found && okOrder
+		if dedupByConstruction && !w2.Found {
+			okDedup = true
+			for _, ss := range g.Find(srt) {
+				if !g.AfterLoop(ss, advLoop) {
+					okDedup = false
+				}
+			}
+		}
 		if !okDedup && !w2.Found {
 			// sort first, then drop adjacent duplicates (slices.Compact of a sorted list de-duplicates it)
 			compact := f.IsAssignPat("N.ToAdvertise.Allowed.Prefixes", "slices.Compact(N.ToAdvertise.Allowed.Prefixes)", chk.H("N", same))
@@ -796,5 +819,36 @@ func c15Indirect(f *chk.Fn, e ast.Expr) bool {
 		default:
 			return false
 		}
+	}
+}
+
+// registeredRule (C15, shared with C14): the handle NewSession gives back is the session the manager renders. Every
+// return that hands a session out (a non-nil first result) is reached only after `sm.sessions[<its name>] = <that
+// session>`: a registration that can be refused quietly (a "duplicate" guard whose error nobody looks at) leaves the
+// caller with a handle whose Set succeeds and changes nothing, while the configuration keeps the old session's routes.
+func registeredRule(p *chk.Prog, r *chk.Report, pkgs ...string) {
+	x := r.Rule("REGISTERED", "B path", "in the frr and frr-k8s session managers every return of NewSession that hands out a session is dominated by the store of that session into sessionManager.sessions under its own key", 2)
+	for _, pkg := range pkgs {
+		f := need(x, p, pkg, "sessionManager", "NewSession")
+		if f == nil {
+			continue
+		}
+		g := f.Graph()
+		n := 0
+		for _, rt := range g.Returns() {
+			res := retResults(rt)
+			if len(res) != 2 || f.IsNilLit(res[0]) {
+				continue
+			}
+			n++
+			s0 := res[0]
+			same := func(e ast.Expr) bool { return f.SameExpr(e, s0) }
+			stored := chk.GEvent(func(nd ast.Node) bool {
+				as, ok := nd.(*ast.AssignStmt)
+				return ok && len(as.Lhs) == 1 && len(as.Rhs) == 1 && f.MatchNew("SM.sessions[K]", as.Lhs[0]) != nil && same(as.Rhs[0])
+			})
+			x.Check(pkg+":NewSession:handed-out-session-is-registered", rt.Pos(), g.Dominated(rt, stored), "", "NewSession can hand out a session that it did not store in the manager's session map (a refused or skipped registration whose error is not looked at): Set on that handle succeeds and the generated configuration never shows it")
+		}
+		x.Check(pkg+":NewSession:success-return", f.Pos(), n >= 1, "", "no return that hands out a session")
 	}
 }
